@@ -792,6 +792,8 @@ class ArrayOf(DataType):
         return ArrayOf(self.members.copy(), self.minlen, self.maxlen)
 
     def checkProperties(self):
+        # properties of the members may have been set through the array (see setProperty)
+        self.members.checkProperties()
         self.default = [self.members.default] * self.minlen
         super().checkProperties()
 
